@@ -103,6 +103,15 @@ def crossed_pair(kind, tag):
         if kind == "tparam":       # explicit type parameters + module members
             return (pre + f"fn pick(u:{r1}, w:{r2}) -> {r2} {{ w }}\nmod m_{tag} {{\n  pub fn {r1}(x){{ x + 1.0 }}\n  pub fn {r2}(x){{ x * 2.0 }}\n}}\n"
                     f"fn dsp(){{\n  pick(1.0, {k}.0) + m_{tag}::{r2}(2.0) + m_{tag}::{r1}(3.0) + pre(3.0,3.0)\n}}\n")
+        if kind == "staged":
+            # staged code: A destructures a NESTED tuple pattern inside quoted code (translate_staging invents temporaries
+            # for the sub-patterns), B a flat one — any state the macro stage shares between compiling threads shows here
+            if k == 5:
+                return (f"#stage(macro)\nfn mk_{tag}(x){{\n  `{{ let (({r1}, {r2}), ({p1}, {p2})) = (($x, 2.0), (3.0, {k}.0))\n"
+                        f"     {r1}*1000.0 + {r2}*100.0 + {p1}*10.0 + {p2} }}\n}}\n#stage(main)\n" + pre +
+                        f"fn dsp(){{\n  mk_{tag}!(`1.0) + pre(3.0,3.0)\n}}\n")
+            return (f"#stage(macro)\nfn mk_{tag}(x){{\n  `{{ let ({r1}, {r2}) = ($x, {k}.0)\n     {r1}*10.0 + {r2} }}\n}}\n#stage(main)\n" + pre +
+                    f"fn dsp(){{\n  mk_{tag}!(`1.0) + pre(3.0,3.0)\n}}\n")
         raise ValueError(kind)
     return [prog(y, b, a, z, 5), prog(z, a, b, y, 7)]
 
@@ -142,7 +151,7 @@ def asstr_probe():
         return {"error": str(e)[:200]}
 
 
-KINDS = ["closure", "diag", "annot", "stateful", "ctor", "tparam"]
+KINDS = ["closure", "diag", "annot", "stateful", "ctor", "tparam", "staged"]
 
 
 def crossed_round(r, name, k, regular, steps, jitter, timeout):
